@@ -838,6 +838,40 @@ for _n in ("abs", "trunc", "floor", "ceil", "rint", "square", "exp", "sqrt", "lo
     NP["numpy." + _n] = (lambda n: lambda ex, args, kwargs, fr: ufunc1(ex, n, args[0]))(_n)
 
 
+def _round(ex, args, kwargs, fr):
+    """numpy.round / numpy.around(a, decimals=d) with a concrete d: rint(a * 10**d) / 10**d (numpy's own definition; real mode: exact)."""
+    v = args[0]
+    d = kwargs.get("decimals", args[1] if len(args) > 1 else VInt(0))
+    if not (isinstance(d, VInt) and is_conc(d.v)):
+        raise Unsupported("np.round with a symbolic number of decimals")
+    if kwargs.get("out") is not None and not isinstance(kwargs.get("out"), VNone):
+        raise Unsupported("np.round(out=)")
+    scale = VFloat(float(10 ** abs(int(d.v))))
+
+    def f(x):
+        if isinstance(x, (VInt, VBool)) and d.v >= 0:
+            return x
+        x = x if isinstance(x, VFloat) else VFloat(to_real(x))
+        if is_conc(x.v):
+            import numpy as _np
+            return VFloat(float(_np.round(x.v, int(d.v))))
+        if is_fp(x.v):
+            raise Unsupported("np.round in IEEE mode")
+        if d.v == 0:
+            return ufunc1(ex, "rint", x)
+        op1, op2 = (ast.Mult(), ast.Div()) if d.v > 0 else (ast.Div(), ast.Mult())
+        return arith(ex.cfg, op2, ufunc1(ex, "rint", arith(ex.cfg, op1, x, scale)), scale)
+    if ex.is_arr(v):
+        c = cell(ex, v)
+        return new_array(ex, c.shape, c.dtype, lambda ix: f(c.elem(ix)))
+    if not is_num(v):
+        raise Unsupported(f"np.round({v!r})")
+    return f(v)
+
+
+NP["numpy.round"] = NP["numpy.around"] = NP["numpy.round_"] = _round
+
+
 def _isfinite(ex, args, kwargs, fr):
     v = args[0]
 
